@@ -31,7 +31,7 @@ WANT = ("c11",)
 
 
 def gen_cases(seed, tier):
-    n = 48 if tier == "quick" else 1600
+    n = 64 if tier == "quick" else 1600
     return [crash_case(ID, seed, i, tier=tier) for i in range(n)]
 
 
@@ -41,10 +41,11 @@ def scenario_of(case):
     quick = case.get("tier") == "quick"
     return draw_smc_scenario(
         case["scenario_seed"],
-        xps=("numpy",) if quick else ("numpy", "numpy", "torch", "jax"),
-        dtypes=(None,) if quick else (None, None, "float64"),
+        xps=("numpy", "numpy", "numpy", "torch", "jax"),
+        dtypes=(None, None, "float64", "float32"),
         particles=(12, 32) if quick else (12, 64),
         kernel_steps=(1, 2) if quick else (1, 3),
+        hard=bool(case["run_index"] % 2),
     )
 
 
@@ -55,7 +56,7 @@ def run_case(case, workdir):
     res = explore(
         scn, workdir, want=WANT, rng=rng,
         routes=case.get("routes") or ROUTES,
-        max_states=case.get("max_states", 3 if quick else None),
+        max_states=case.get("max_states", 4 if quick else None),
         max_crash_points=case.get("max_crash_points", 60 if quick else None),
         double_crash=case.get("double_crash", 0 if quick else 1),
     )
